@@ -31,8 +31,10 @@ def leaves(element):
     return list(element)
 
 
-def check_allocator(schedule, driver_mod=None):
-    """returns None or (clause, message).  `schedule` is a list of real track.Task / track.Parallel objects"""
+def check_allocator(schedule, driver_mod=None, want_counts=None):
+    """returns None or (clause, message).  `schedule` is a list of real track.Task / track.Parallel objects; want_counts: the number of
+    clients every element uses according to the track specification (explicit clients of a parallel element, else the sum of its
+    sub-tasks' clients), where the caller knows it independently of the objects' own `clients` property"""
     from esrally.driver import driver
 
     a = driver.Allocator(schedule)
@@ -43,7 +45,8 @@ def check_allocator(schedule, driver_mod=None):
         nclients = a.clients
     except Exception as e:  # noqa
         return ("allocator-raises", f"{type(e).__name__}: {e}")
-    want_clients = max([1] + [el.clients for el in schedule])
+    counts = list(want_counts) if want_counts is not None else [el.clients for el in schedule]
+    want_clients = max([1] + counts)
     if nclients != want_clients or len(allocs) != want_clients:
         return ("client-count", f"allocator uses {nclients} clients / {len(allocs)} rows, schedule needs {want_clients}")
     width = len(allocs[0])
@@ -87,8 +90,8 @@ def check_allocator(schedule, driver_mod=None):
         for c, x in seg:
             if not any(x.task is t for t in el_tasks):
                 return ("task-outside-its-element", f"task {x.task.name} allocated in the segment of element {k}")
-            if x.total_clients != el.clients:
-                return ("total-clients", f"element {k}: allocation of {x.task.name} says total_clients={x.total_clients}, element has {el.clients}")
+            if x.total_clients != counts[k]:
+                return ("total-clients", f"element {k}: allocation of {x.task.name} says total_clients={x.total_clients}, element has {counts[k]}")
         g = sorted(x.global_client_index for c, x in seg)
         if g != list(range(len(g))):
             return ("global-client-index", f"element {k}: global indices {g}")
